@@ -652,9 +652,7 @@ class FileCache:
         Return size on disk of the cache in bytes.
         :return: cache size in bytes.
         """
-        return _get_total_size_of_files_in_bytes(
-            list(self._entries.values()), self.path
-        )
+        return _get_total_size_of_files_in_bytes(list(self._entries.values()))
 
     def purge(self) -> None:
         """
